@@ -145,6 +145,14 @@ CHECKS = {
              "eval-when-compile contributes nothing at run time); the three histories are executed in fresh processes "
              "with a private bytecode cache and compared, together with the values eval-and-compile and do-mac yield.",
         note="HY_MESSAGE_WHEN_COMPILING distinguishes compiling from loading bytecode; no source hook is needed."),
+    "C17": dict(
+        engine="lines", level="model_checking", design="5.3, 6/C17",
+        technique="TLC enumerates chains of enclosing constructs around a raising form and computes, from the layout of "
+                  "their templates, the line span of the raising form; each program is compiled and run and the innermost "
+                  "traceback frame of the module compared with the span",
+        text="Chains of up to 2 (thorough 3) out of 31 enclosing constructs around "
+             "9 raising forms of 1-3 lines (call, division, subscript, attribute, unbound name, raise, assert, unpacking).",
+        note="The harness verifies the layout the spec computed against the rendered text before trusting it."),
     "C18": dict(
         engine="reader", level="model_checking", design="5.4, 6/C18",
         technique="TLC enumerates every short text of HyReader's alphabet with the spec's outcome; the real reader "
